@@ -297,6 +297,20 @@ func (l *link) payloadPackets(n, maxData, pad int) []byte {
 
 func (l *link) padPacket(n int) []byte { return l.sess.Enc.Packet(ss.FlagPayload, nil, n) }
 
+// downBytes accounts for n more bytes of the server's stream and returns them.
+func (l *link) downBytes(n int) []byte {
+	l.mu.Lock()
+	off := l.dWritten
+	l.dWritten += int64(n)
+	l.mu.Unlock()
+	return l.down.Bytes(off, n)
+}
+
+// judgedOK: the streams were complete and intact at the last quiescent point.
+func (l *link) judgedOK(s snap) bool {
+	return s.dMismatch < 0 && s.uMismatch < 0 && s.dErr == nil && s.uErr == nil && s.uWriteErr == nil && s.dDelivered == s.dWritten && s.uDecoded == s.uWritten
+}
+
 type snap struct {
 	dWritten, dDelivered, dMismatch int64
 	dErr                            error
@@ -847,6 +861,52 @@ func runStream(c *mon.Case, r *mon.Run, dir string, chunk int, scenario int, see
 		r.Count("stream_bytes_down", s.dDelivered)
 		r.Count("stream_bytes_up", s.uDecoded)
 		r.Count("stream_connections", 1)
+		// closing phase: the server's last burst ends with a small packet (1..20
+		// bytes behind the 21-byte MAC and header) or an ordinary one, the wire
+		// hands the client the header first and the body later, and the server's
+		// connection ends right behind it — in a read of its own or, as an
+		// io.Reader may, together with the last bytes.  Everything sent must
+		// be delivered before the client's Read reports the end.
+		if l.judgedOK(s) {
+			body := 1 + rng.IntN(20)
+			if rng.IntN(3) == 0 {
+				body = 21 + rng.IntN(1400)
+			}
+			k := 1 + rng.IntN(body)
+			withData := rng.IntN(2) == 0
+			s2c.Pause(true)
+			lead := l.payloadPackets(rng.IntN(3000), 0, rng.IntN(50))
+			last := l.sess.Enc.Packet(ss.FlagPayload, l.downBytes(k), body-k)
+			cutAt := s2c.Written() + int64(len(lead)) + 21
+			sw.Write(append(lead, last...))
+			if chunkings[chunk].win == 0 && rng.IntN(2) == 0 {
+				// a read boundary right behind the last packet's header, whatever the chunking
+				s2c.SetPolicy(memwire.Boundaries([]int64{cutAt, cutAt + 1 + int64(rng.IntN(body))}))
+			}
+			s2c.SetErrWithData(withData)
+			s2c.CloseWrite()
+			s2c.Pause(false)
+			synctest.Wait()
+			e := l.snapshot()
+			r.Count("closing_phases", 1)
+			if body <= 20 {
+				r.Count("closing_phases_with_a_small_last_packet", 1)
+			}
+			if withData {
+				r.Count("closing_phases_end_reported_with_last_data", 1)
+			}
+			wit["last_packet_body"], wit["end_reported_with_last_data"] = body, withData
+			switch {
+			case e.dMismatch >= 0:
+				c.Violation("stream-mismatch/down/last-bytes-before-the-end/"+what, fmt.Sprintf("byte %d delivered to the client application is not the byte the server sent there (the server's connection ended right behind a last packet with a %d-byte body)", e.dMismatch, body), wit)
+			case e.dErr == nil:
+				c.Violation("end-not-reported/"+what, fmt.Sprintf("the server's connection ended after %d bytes but the client's Read has not reported it at quiescence (%d delivered; last packet body %d bytes)", e.dWritten, e.dDelivered, body), wit)
+			case e.dDelivered != e.dWritten:
+				c.Violation("lost-at-end/"+what, fmt.Sprintf("the server sent %d bytes before its connection ended, the client's Read reported the end (%v) after delivering %d (last packet body %d bytes, end reported together with data: %v)", e.dWritten, e.dErr, e.dDelivered, body, withData), wit)
+			default:
+				r.Count("closing_phases_all_delivered_before_the_end", 1)
+			}
+		}
 		if round == 0 {
 			r.Sample(map[string]any{"part": "stream", "chunking": chunkings[chunk].name, "scenario": scenario, "server_writes": sScript, "client_writes": cScript, "delivered_down": s.dDelivered, "decoded_up": s.uDecoded, "handshake": hello.Type})
 		}
